@@ -755,6 +755,19 @@ func (x *Exec) execStmt(s ast.Stmt, env *Env, label string) *Env {
 				return env
 			}
 		}
+		// defer func() { delete(m, k) }(): the same as defer delete(m, k) when k is not reassigned afterwards (k is
+		// evaluated here; the literal has no parameters and its body is that one statement)
+		if fl, ok := ast.Unparen(s.Call.Fun).(*ast.FuncLit); ok && len(s.Call.Args) == 0 && len(fl.Body.List) == 1 {
+			if es, ok := fl.Body.List[0].(*ast.ExprStmt); ok {
+				if dc, ok := es.X.(*ast.CallExpr); ok {
+					if id, ok := ast.Unparen(dc.Fun).(*ast.Ident); ok && id.Name == "delete" && len(dc.Args) == 2 {
+						if _, isBuiltin := x.cx.info.Uses[id].(*types.Builtin); isBuiltin {
+							return x.execStmt(&ast.DeferStmt{Defer: s.Defer, Call: dc}, env, label)
+						}
+					}
+				}
+			}
+		}
 		// defer delete(m, k) on a local map outside loops: applied at the function exit
 		if id, ok := ast.Unparen(s.Call.Fun).(*ast.Ident); ok && id.Name == "delete" && len(s.Call.Args) == 2 {
 			if _, isBuiltin := x.cx.info.Uses[id].(*types.Builtin); isBuiltin {
